@@ -11,3 +11,5 @@ from harness import C02 as _C02  # noqa: E402
 
 composed_callback_invoke = _C02.t_condition_callback_invoke_page1
 composed_callback_invoke.__module__ = __name__
+composed_wrapped_callback_invoke = _C02.t_wrapped_suspenders_page1   # callback / invoke STARTs whose response spans two pages (id read back after pagination)
+composed_wrapped_callback_invoke.__module__ = __name__
